@@ -735,8 +735,22 @@ impl Attr {
                 }
                 let mut c = n.clone();
                 c.shape = 0;
-                let kept = self.keep_if_fails(c, p);
-                (kept, !kept)
+                if self.keep_if_fails(c, p) {
+                    return (true, false);
+                }
+                // the combined shape: is one of its parts enough?
+                if shape_name(n.shape) == "combined" {
+                    for part in 1..icyv::shape::CODES {
+                        if part != n.shape {
+                            let mut c = n.clone();
+                            c.shape = part;
+                            if self.keep_if_fails(c, p) {
+                                return (true, true);
+                            }
+                        }
+                    }
+                }
+                (false, true)
             }
             Step::Palette => {
                 if n.pal == 0 {
@@ -1151,13 +1165,10 @@ fn check(c: &Case) -> Verdict {
     let n = normalize(c);
     match roundtrip(&n, None) {
         Outcome::Same => {
-            let mut class = n.opts.tag();
+            // option tag for plain buffers, shape name for perturbed ones (the product would be ~37k classes)
+            let mut class = if n.shape != 0 { format!("shape/{}", shape_name(n.shape)) } else { n.opts.tag() };
             if c.steered {
                 class.push('~');
-            }
-            if n.shape != 0 {
-                class.push('/');
-                class.push_str(shape_name(n.shape));
             }
             Verdict::pass(nontrivial(&n), class)
         }
